@@ -58,7 +58,11 @@ def callsite_assertions(X, ins, key, argv, argops):
             inloop = int(lk_)
         if ckey != key:
             continue
-        if inloop is not None:
+        if inloop == 0:
+            # @L0: the call sites that are in no loop at all
+            if any(X.block in l['body'] for l in X.cfg['loops'].values()):
+                continue
+        elif inloop is not None:
             lp_ = [l for l in X.cfg['loops'].values() if l['ordinal'] == inloop]
             if not lp_ or X.block not in lp_[0]['body']:
                 continue
